@@ -1,9 +1,150 @@
-"""End-to-end invariant check on loops (C06 part b) — filled in later."""
+"""C06 part (b): invariants end to end.  Loops go through GoalsAction.handle_all_goals with --invariants; every printed
+`poly = 0` is evaluated on goal sequences computed by the REFERENCE MODEL (not by Polar's formulas) for every n beyond the
+special cases Polar itself prints for those goals."""
+import contextlib
+import io
+import re
+
+from .common import build_model, exc_name
+from .model import NotApplicable, CapHit
+from .refparser import NotPolynomial, RefParseError
+from .poly import parse_poly, Poly
+from .pool import cpu_limit, CpuTimeout
+
+LOOPS = [
+    # (program, goals)
+    ("x = 1\ny = 1\nwhile true:\n    x = 2*x\n    y = 4*y\nend\n", ["E(x)", "E(y)"]),
+    ("x = 0\ny = 0\nwhile true:\n    y = y + 2*x + 1\n    x = x + 1\nend\n", ["E(x)", "E(y)"]),
+    ("x = 1\ny = 0\nz = 0\nwhile true:\n    z = z + y\n    y = y + x\n    x = 2*x\nend\n", ["E(x)", "E(y)", "E(z)"]),
+    ("x = 1\ny = 1\nz = 1\nwhile true:\n    x = 4*x\n    y = 8*y\n    z = z/2\nend\n", ["E(x)", "E(y)", "E(z)"]),
+    ("x = 0\ny = 0\nwhile true:\n    x = x + 1 {1/2} x - 1\n    y = y + 1\nend\n", ["E(x)", "E(x**2)", "E(y)"]),
+    ("x = 0\ny = 0\nwhile true:\n    x = x + 1 {1/2} x - 1\n    y = y + x\nend\n", ["E(x**2)", "E(y**2)", "E(x*y)"]),
+    ("x = 0\ny = 0\nwhile true:\n    x = x + 1 {1/2} x - 1\n    y = y + 2\nend\n", ["c2(x)", "E(y)", "k2(x)"]),
+    ("x = 0\nc = 0\ny = 1\nwhile true:\n    c = Bernoulli(1/2)\n    x = x + c\n    y = 2*y\nend\n", ["E(x)", "c2(x)", "k3(x)", "E(y)"]),
+    ("x = 1\ny = 1\nwhile true:\n    x, y = y, x + y\nend\n", ["E(x)", "E(y)"]),
+    ("x = 2\ny = 1\nwhile true:\n    x = -2*x\n    y = 4*y\nend\n", ["E(x)", "E(y)"]),
+    ("x = 0\ny = 0\nz = 5\nwhile true:\n    y = x\n    x = 1\n    z = z + 1\nend\n", ["E(x)", "E(y)", "E(z)"]),
+    ("x = 1\ny = 3\nwhile true:\n    x = x/2 + 1\n    y = y/4\nend\n", ["E(x)", "E(y)"]),
+]
 
 
 def loop_cases(tier):
-    return []
+    return [{"input": {"kind": "loop", "text": t, "goals": g}} for t, g in LOOPS]
+
+
+def _goal_value(model, goal, n):
+    """Exact value of a goal (E / cK / kK of a monomial) at n from the model's raw moments."""
+    from .checks.c11 import cumulant_from_moments
+    from fractions import Fraction as F
+    from math import comb
+
+    m = re.match(r"^(E|c|k)(\d*)\((.*)\)$", goal)
+    kind, order, mono = m.group(1), m.group(2), parse_poly(m.group(3))
+    if kind == "E":
+        return model.moment(mono, n).const_value()
+    k = int(order)
+    raw = {i: model.moment(mono ** i, n).const_value() for i in range(1, k + 1)}
+    raw[0] = F(1)
+    if kind == "c":
+        if k == 1:
+            return raw[1]
+        return sum(comb(k, j) * (-1) ** (k - j) * raw[j] * raw[1] ** (k - j) for j in range(k + 1))
+    return cumulant_from_moments(raw, k)
 
 
 def check_loop(inp, mode):
-    return {"status": "na", "stats": {}, "violations": []}
+    import sympy
+    from . import polar
+
+    text, goals = inp["text"], inp["goals"]
+    stats = {"evaluations": 0, "refusals": {}, "programs": 1}
+    res = {"status": "ok", "stats": stats, "violations": []}
+    try:
+        with cpu_limit(20):
+            model = build_model(text)
+            model.run(4)
+    except (NotApplicable, NotPolynomial, RefParseError, CapHit, CpuTimeout):
+        res["status"] = "na"
+        return res
+    from cli.actions.goals_action import GoalsAction
+    from recurrences import RecBuilder
+
+    polar.reset_settings()
+    args = polar.cli_defaults()
+    args.goals = list(goals)
+    args.invariants = True
+    try:
+        with cpu_limit(90):
+            program = polar.normalize(polar.parse(text))
+            ga = GoalsAction(args)
+            ga.initialize_program(program, RecBuilder(program))
+            buf = io.StringIO()
+            with contextlib.redirect_stdout(buf):
+                ga.handle_all_goals()
+    except CpuTimeout:
+        stats["refusals"]["timeout"] = 1
+        res["status"] = "refusal"
+        return res
+    except Exception as e:
+        stats["refusals"][exc_name(e)] = 1
+        res["status"] = "refusal"
+        return res
+    printed = buf.getvalue()
+    head, _, inv_part = printed.partition("Invariants")
+    # number of special cases Polar lists for the goals
+    k = 0
+    for line in head.split("\n"):
+        m = re.match(r"^\S.* = (.*)$", line)
+        if m and ";" in m.group(1) and "≅" not in line:
+            k = max(k, len(m.group(1).split(";")) - 1)
+        for b in re.findall(r"n <= (\d+)", line):
+            # a Piecewise that prettify_piecewise left unformatted still lists its special cases
+            k = max(k, int(b) + 1)
+    lines = [l.strip()[:-4].strip() for l in inv_part.split("\n") if l.strip().endswith("= 0")]
+    res["sample"] = {"program": text, "goals": goals, "invariants": lines, "special_cases": k}
+    if lines:
+        stats["distinct_nontrivial"] = 1
+    # identifiers: E(mono) for probabilistic programs, plain mono otherwise; cK(..), kK(..)
+    idents = {}
+    for g in goals:
+        m = re.match(r"^(E|c|k)(\d*)\((.*)\)$", g)
+        mono = sympy.sympify(m.group(3))
+        if m.group(1) == "E":
+            ident = "E(%s)" % mono if program.is_probabilistic else str(mono)
+        else:
+            ident = "%s%s(%s)" % (m.group(1), m.group(2), mono)
+        idents[ident] = g
+    for line in lines:
+        expr = line
+        syms = {}
+        for i, ident in enumerate(sorted(idents, key=len, reverse=True)):
+            syms[ident] = sympy.Symbol("G%d" % i)
+            expr = expr.replace(ident, "G%d" % i)
+        try:
+            e = sympy.sympify(expr)
+        except Exception:
+            stats["unparsable_invariants"] = stats.get("unparsable_invariants", 0) + 1
+            continue
+        extra = e.free_symbols - set(syms.values())
+        if extra:
+            res["violations"].append({"sub": "invariant", "detail": {"program": text, "goals": goals, "invariant": line,
+                                                                   "problem": "mentions symbols that are not goals: %s" % sorted(map(str, extra))}})
+            continue
+        for n in range(k, k + 9):
+            try:
+                with cpu_limit(30):
+                    vals = {}
+                    for ident, s in syms.items():
+                        v = _goal_value(model, idents[ident], n)
+                        vals[s] = sympy.Rational(v.numerator, v.denominator)
+                    val = sympy.expand(e.xreplace(vals))
+            except (CpuTimeout, NotApplicable, CapHit, ValueError):
+                break
+            stats["evaluations"] += 1
+            if val != 0:
+                res["violations"].append({"sub": "invariant", "detail": {"program": text, "goals": goals, "invariant": line, "n": n,
+                                                                       "value_on_model_sequences": str(val)}})
+                break
+    if res["violations"]:
+        res["status"] = "violation"
+    return res
